@@ -25,6 +25,7 @@ var table = map[string]struct {
 	"C07": {"model_checking", checks.C07},
 	"C08": {"model_checking", checks.C08},
 	"C10": {"model_checking", checks.C10},
+	"C12": {"fault_enumeration", checks.C12},
 	"C13": {"model_checking", checks.C13},
 	"C14": {"fault_enumeration", checks.C14},
 	"C15": {"fault_enumeration", checks.C15},
